@@ -436,6 +436,9 @@ func (p *Program) canon(fn *Func, x ast.Expr, depth int) string {
 					return "rangeval(" + p.canon(fn, ds.rhs, depth+1) + ")"
 				}
 			}
+			if over := fn.indexLoopOver(o); over != nil {
+				return "rangekey(" + p.canon(fn, over, depth+1) + ")"
+			}
 			if s, ok := p.pathDef(fn, v, o, depth); ok {
 				return s
 			}
@@ -490,6 +493,15 @@ func (p *Program) canon(fn *Func, x ast.Expr, depth int) string {
 	case *ast.BinaryExpr:
 		return "(" + p.canon(fn, v.X, depth+1) + " " + v.Op.String() + " " + p.canon(fn, v.Y, depth+1) + ")"
 	case *ast.IndexExpr:
+		// x[i] inside `for i := 0; i < len(x); i++`: the element, as in `for _, e := range x`
+		if id, ok := ast.Unparen(v.Index).(*ast.Ident); ok {
+			if over := fn.indexLoopOver(info.Uses[id]); over != nil {
+				cx := p.canon(fn, v.X, depth+1)
+				if cx == p.canon(fn, over, depth+1) {
+					return "rangeval(" + cx + ")"
+				}
+			}
+		}
 		return p.canon(fn, v.X, depth+1) + "[" + p.canon(fn, v.Index, depth+1) + "]"
 	case *ast.TypeAssertExpr:
 		return p.canon(fn, v.X, depth+1) + ".(" + types.ExprString(v.Type) + ")"
@@ -835,4 +847,27 @@ func (f *Func) isDecodeTarget(o types.Object) bool {
 		}
 	}
 	return r.decodeTargets[o]
+}
+
+// indexLoopOver: obj is the index variable of a canonical index loop of this function (see
+// indexLoop in engine.go); returns the collection iterated.
+func (f *Func) indexLoopOver(obj types.Object) ast.Expr {
+	if obj == nil {
+		return nil
+	}
+	r := f.root()
+	if r.idxLoops == nil {
+		r.idxLoops = map[types.Object]ast.Expr{}
+		if r.Body != nil {
+			ast.Inspect(r.Body, func(n ast.Node) bool {
+				if fs, ok := n.(*ast.ForStmt); ok {
+					if iv, over := indexLoop(r.Info(), fs); iv != nil {
+						r.idxLoops[iv] = over
+					}
+				}
+				return true
+			})
+		}
+	}
+	return r.idxLoops[obj]
 }
